@@ -3,6 +3,7 @@ package main
 import (
 	"go/token"
 	"go/types"
+	"strings"
 
 	"golang.org/x/tools/go/ssa"
 )
@@ -584,8 +585,92 @@ func r03_7(c *Ctx) {
 		_, isConst := ia.Index.(*ssa.Const)
 		return !isConst && len(loopsContaining(fn, ia.Block())) > 0
 	}
+	// library form: slices.ContainsFunc(x, func(t) bool { return slices.Contains(y, t) }) with {x, y} =
+	// the two parameters (the contracts of slices.Contains/ContainsFunc — "some element equals / satisfies" —
+	// are part of the trusted base)
+	libForm := func(v ssa.Value) bool {
+		call, ok := v.(*ssa.Call)
+		if !ok || len(call.Call.Args) != 2 {
+			return false
+		}
+		callee := call.Call.StaticCallee()
+		if callee == nil || fnPkgPath(callee) != "slices" || !strings.HasPrefix(callee.Name(), "ContainsFunc") {
+			return false
+		}
+		var outer *ssa.Parameter
+		for _, p := range fn.Params {
+			if call.Call.Args[0] == ssa.Value(p) {
+				outer = p
+			}
+		}
+		var g *ssa.Function
+		switch fv := call.Call.Args[1].(type) {
+		case *ssa.MakeClosure:
+			g, _ = fv.Fn.(*ssa.Function)
+		case *ssa.Function:
+			g = fv
+		}
+		if outer == nil || g == nil || len(g.Params) != 1 || len(loopsOf(g)) > 0 {
+			return false
+		}
+		for _, r := range returnsOf(g) {
+			inner, ok := r.Results[0].(*ssa.Call)
+			if !ok || len(inner.Call.Args) != 2 {
+				return false
+			}
+			ic := inner.Call.StaticCallee()
+			if ic == nil || fnPkgPath(ic) != "slices" || !strings.HasPrefix(ic.Name(), "Contains") || strings.HasPrefix(ic.Name(), "ContainsFunc") {
+				return false
+			}
+			if inner.Call.Args[1] != ssa.Value(g.Params[0]) {
+				return false
+			}
+			// the searched slice is the other parameter (captured)
+			other := false
+			for _, src := range sources(inner.Call.Args[0]) {
+				_ = src
+			}
+			if u, ok := inner.Call.Args[0].(*ssa.UnOp); ok {
+				if fv, ok := u.X.(*ssa.FreeVar); ok {
+					for i, b := range g.FreeVars {
+						if b == fv {
+							if mc, ok := call.Call.Args[1].(*ssa.MakeClosure); ok && i < len(mc.Bindings) {
+								for _, p := range fn.Params {
+									if p != outer && cellHoldsOnly(mc.Bindings[i], p) {
+										other = true
+									}
+								}
+							}
+						}
+					}
+				}
+			}
+			if fv, ok := inner.Call.Args[0].(*ssa.FreeVar); ok {
+				for i, b := range g.FreeVars {
+					if b == fv {
+						if mc, ok := call.Call.Args[1].(*ssa.MakeClosure); ok && i < len(mc.Bindings) {
+							for _, p := range fn.Params {
+								if p != outer && mc.Bindings[i] == ssa.Value(p) {
+									other = true
+								}
+							}
+						}
+					}
+				}
+			}
+			if !other {
+				return false
+			}
+		}
+		return len(returnsOf(g)) > 0
+	}
 	for i, ret := range returnsOf(fn) {
 		name := fnLabel(fn) + ":return#" + itoa(i)
+		if libForm(ret.Results[0]) {
+			c.ok(name, P.ipos(ret), "slices.ContainsFunc(one argument, t => slices.Contains(the other argument, t))")
+			c.ok(name+":both-arguments", P.ipos(ret), "both arguments are searched completely (library form)")
+			continue
+		}
 		for _, s := range sources(ret.Results[0]) {
 			b, isC := constBool(s)
 			if !isC {
@@ -1770,4 +1855,19 @@ func r07_7(c *Ctx) {
 		return
 	}
 	c.check(bad == "", name, P.pos(fn.Pos()), "every origin of the result is nil, ErrProviderClosed or ctx.Err()", "Shutdown can return a value that is neither nil, ErrProviderClosed nor its context's Err(): "+bad)
+}
+
+// fnPkgPath: the package path of a function, also for instantiations of generic functions (whose
+// Pkg field is nil).
+func fnPkgPath(f *ssa.Function) string {
+	if f.Pkg != nil {
+		return f.Pkg.Pkg.Path()
+	}
+	if o := f.Origin(); o != nil && o.Pkg != nil {
+		return o.Pkg.Pkg.Path()
+	}
+	if obj := f.Object(); obj != nil && obj.Pkg() != nil {
+		return obj.Pkg().Path()
+	}
+	return ""
 }
